@@ -38,7 +38,8 @@ def rhs_matrix(ode, max_tries: int = 20) -> sympy.Matrix:
     RuntimeError
         If the maximum number of tries is reached
     """
-    intermediates = {x.symbol: x.expr for x in ode.intermediates}
+    # An expression may also refer to a state derivative (e.g. i_cap = Cm * dV_dt)
+    intermediates = {x.symbol: x.expr for x in (*ode.intermediates, *ode.state_derivatives)}
     rhs = sympy.Matrix([state.expr for state in ode.sorted_state_derivatives()])
 
     # Every substitution resolves at least one level of the (acyclic) dependency
